@@ -57,6 +57,13 @@ def rule_pair(ctx, f):
             bad0 = [last_seg(a[1]) for a in a0 + a1 if a[0] == "call" and last_seg(a[1]) not in ADAPTERS_OK]
             ok = ok and from_pages0 and from_proms1 and not bad0
             bad_ad = bad_ad or bad0
+        # every turn of the loop reaches the fulfill (a `continue` in front of it leaves that page's promise unfulfilled)
+        for h, blk in loops.items():
+            if bi in blk:
+                backs = [a_ for a_, h2 in cfg.back_edges() if h2 == h]
+                every = bool(backs) and all(cfg.all_paths_pass(h, [a_], {bi}) for a_ in backs)
+                ctx.check(every, "C10-PAIR", b["id"] + "#fulfil-every-turn", "a turn of the page loop can reach the next page without fulfilling the promise of this one: /Kids and "
+                          "/Count still list the page, its object is never defined", t["span"], detail="every path round the loop passes fulfill")
         ctx.check(ok, "C10-PAIR", b["id"] + "#fulfil-all",
                   "page promises are not fulfilled one-to-one (adapters %s between the page list and the fulfil loop): a /Kids entry points at an "
                   "object that is never defined, or a page is lost" % bad_ad, t["span"], detail="for (page, promise) in pages.zip(promises) { fulfill }")
@@ -215,6 +222,13 @@ def rule_header(ctx, f):
             hdr += [F.const_bytes(s[2][1]) for i, j, s in F.stmts(b) if s[0] == "assign" and s[2][0] == "use" and F.const_bytes(s[2][1])]
             ok = any(h.startswith("%PDF-") and h.endswith("\n") for h in hdr)
             ctx.check(ok, "C10-G1", b["id"] + "#header", "the backend of a new document does not start with `%%PDF-x.y\\n` (constants: %s)" % hdr, b["span"], detail="backend = b\"%PDF-1.7\\n\"")
+            # ... at byte 0: positions written by save are relative to start_offset
+            so = []
+            for i, j, st in F.stmts(b):
+                if st[0] == "assign" and st[2][0] == "aggregate" and st[2][1].get("adt", "").startswith("file::Storage") and "start_offset" in (st[2][1].get("fields") or []):
+                    so.append(F.const_int(st[2][2][st[2][1]["fields"].index("start_offset")]))
+            ctx.check(so == [0], "C10-G1", b["id"] + "#start_offset", "a new document's start_offset is %s, not the constant 0 (its header is the first thing in the buffer): every "
+                      "offset save writes is off by the difference" % so, b["span"], detail="start_offset: 0")
     ctx.floor("C10-G1", n, 1, "Storage::empty")
 
 
